@@ -2,7 +2,7 @@
 from hypothesis import strategies as st
 from ..runner import Outcome
 from .. import ops as O, eqv
-from ..hist import HistoryRun, bundle_sig, judge_state_diff, undo_raised_sig, made_formula_then_removed, col_kind
+from ..hist import HistoryRun, bundle_sig, judge_state_diff, undo_raised_sig, made_formula_then_removed, made_formula_with_type_change, col_kind
 
 ID = 'C01'
 LEVEL = 'exploration'
@@ -58,6 +58,10 @@ def run_case(case):
     out.cls(*labels)
     if bad and bad[0] == 'cells:usertable.data' and made_formula_then_removed(uas, bad[1], lambda t, c: col_kind(before, t, c)):
       out.fail('C01:undo-mismatch:data-column-made-formula-then-rows-removed-in-same-bundle',
+               'state after %s undo of %r differs from the state before it' % (how, uas), bad[1])
+      return None
+    if bad and bad[0] == 'cells:usertable.data' and made_formula_with_type_change(uas, bad[1], lambda t, c: col_kind(before, t, c)):
+      out.fail('C01:undo-mismatch:data-column-made-formula-with-type-change',
                'state after %s undo of %r differs from the state before it' % (how, uas), bad[1])
       return None
     if bad:
